@@ -395,3 +395,90 @@ pub fn c15(out: &mut Out) {
     out.bounded("C15/end-to-end authorization through the real dispatcher (real Proto + core task, HS256 tokens)", "3 anonymous requests, forged and expired token, 22 requests against a read r/#, write w/#, delete d/# grant", n, n);
     let _ = BTreeMap::<u8, u8>::new();
 }
+
+
+/// C17 over a real unix socket: the real server (run_worterbuch under a tosub root), rude clients that send a burst
+/// of valid requests and hang up without reading, odd byte lines, and a witness session that must keep being served.
+pub fn c17_socket(out: &mut Out) {
+    use std::time::Duration;
+    use tokio::io::{AsyncBufReadExt, AsyncWriteExt, BufReader};
+    use tokio::net::UnixStream;
+    use tokio::time::{sleep, timeout};
+    let rt = tokio::runtime::Builder::new_multi_thread().worker_threads(4).enable_all().build().expect("runtime");
+    let dir = std::env::temp_dir().join(format!("wb-rac-c17-{}", std::process::id()));
+    std::fs::create_dir_all(&dir).ok();
+    let socket_path = dir.join("wb.socket");
+    std::fs::remove_file(&socket_path).ok();
+    let sp = socket_path.clone();
+    let res: Result<Vec<Value>, String> = rt.block_on(async move {
+        let mut config = worterbuch::Config::new(None).await.map_err(|e| format!("{e:?}"))?;
+        config.ws_endpoint = None;
+        config.tcp_endpoint = None;
+        config.ws_disabled = true;
+        config.tcp_disabled = true;
+        config.unix_disabled = false;
+        config.unix_endpoint = Some(worterbuch::UnixEndpoint { path: sp.clone() });
+        config.use_persistence = false;
+        config.leader = false;
+        config.follower = false;
+        config.auth_token_key = None;
+        let server = tokio::spawn(tosub::build_root("rac-c17").start(move |s| worterbuch::run_worterbuch(s, config)));
+        let step = Duration::from_secs(20);
+        async fn connect(p: &std::path::Path, step: Duration) -> Result<(tokio::io::Lines<BufReader<tokio::net::unix::OwnedReadHalf>>, tokio::net::unix::OwnedWriteHalf), String> {
+            let stream = timeout(step, async { loop { match UnixStream::connect(p).await { Ok(s) => break s, Err(_) => sleep(Duration::from_millis(50)).await } } }).await.map_err(|_| "server does not accept connections".to_owned())?;
+            let (rx, tx) = stream.into_split();
+            let mut lines = BufReader::new(rx).lines();
+            let w = timeout(step, lines.next_line()).await.map_err(|_| "no welcome".to_owned())?.map_err(|e| e.to_string())?;
+            if !w.unwrap_or_default().contains("welcome") { return Err("no welcome message".into()); }
+            Ok((lines, tx))
+        }
+        let (mut wrx, mut wtx) = connect(&sp, step).await?;
+        let mut problems = vec![];
+        let mut tid = 1u64;
+        let rude: Vec<Vec<u8>> = vec![
+            (0..200).map(|i| format!("{{\"get\":{{\"transactionId\":{},\"key\":\"w\"}}}}\n", i + 1)).collect::<String>().into_bytes(),
+            (0..50).map(|i| format!("{{\"pSubscribe\":{{\"transactionId\":{},\"requestPattern\":\"#\",\"unique\":false}}}}\n", i + 1)).collect::<String>().into_bytes(),
+            b"\xff\xfe\x00garbage\n{not json}\n".to_vec(),
+            b"{\"set\":{\"transactionId\":1,\"key\":\"w\",\"value\":1}}".to_vec(), // no newline, then hang up
+        ];
+        for (round, burst) in rude.iter().enumerate() {
+            for _ in 0..2 {
+                if let Ok(mut rogue) = UnixStream::connect(&sp).await {
+                    let _ = rogue.write_all(burst).await;
+                    drop(rogue);
+                } else { problems.push(json!({"round": round, "problem": "server does not accept new connections any more"})); }
+            }
+            sleep(Duration::from_millis(300)).await;
+            tid += 1;
+            let line = format!("{{\"set\":{{\"transactionId\":{tid},\"key\":\"w\",\"value\":{round}}}}}\n");
+            let ok = match timeout(step, wtx.write_all(line.as_bytes())).await { Ok(Ok(())) => true, _ => false };
+            let mut answered = false;
+            if ok {
+                // skip events, wait for our ack
+                for _ in 0..500 {
+                    match timeout(step, wrx.next_line()).await {
+                        Ok(Ok(Some(l))) => { if l.contains("\"ack\"") && l.contains(&format!("\"transactionId\":{tid}")) { answered = true; break; } }
+                        _ => break,
+                    }
+                }
+            }
+            if !answered || server.is_finished() {
+                problems.push(json!({"round": round, "problem": "witness session not answered / server shut down after a rude client", "server_finished": server.is_finished()}));
+                break;
+            }
+        }
+        if problems.is_empty() {
+            match connect(&sp, step).await { Ok(_) => {}, Err(e) => problems.push(json!({"problem": format!("a late client cannot connect: {e}")})) }
+        }
+        server.abort();
+        Ok(problems)
+    });
+    std::fs::remove_file(&socket_path).ok();
+    match res {
+        Err(e) => out.report("C17/real server over a unix socket starts", Some("UNLISTED"), json!({"error": e})),
+        Ok(problems) => for p in problems {
+            out.report("C17/a client that hangs up with unread responses or sends odd bytes costs at most its own connection (real server, unix socket)", Some("UNLISTED"), p);
+        },
+    }
+    out.bounded("C17/rude clients over a real unix socket against a witness session", "4 kinds of rude client (burst of gets, burst of subscriptions, non-UTF8/garbage, unterminated line) x 2, witness request after each", 8, 8);
+}
